@@ -247,6 +247,27 @@ func c11RunSets(c *fw.Ctx, itemp *int64, subsets [][]string, lists []GOp) {
 					}
 				}
 			}
+			// listings after the bucket changed under earlier listings (same instance): a metadata patch of the first object and
+			// the deletion of the last one, then the first listings again and the whole state (items = metadata GET)
+			if okSetup && len(names) > 0 && len(lists) > 0 {
+				tail := []GOp{{Kind: "Patch", Bucket: "b", Name: names[0], PatchBody: []byte(`{"metadata":{"patched":"after-listing"},"contentType":"text/relisted"}`)}}
+				if len(names) > 1 {
+					tail = append(tail, GOp{Kind: "Delete", Bucket: "b", Name: names[len(names)-1]})
+				}
+				tail = append(tail, lists[0], lists[len(lists)/2], lists[len(lists)-1])
+				for ti := range tail {
+					o := tail[ti]
+					m, cl := w.Step(&o, ti == len(tail)-1 || o.Kind != "List")
+					c.Eval(1)
+					c.Trans(1)
+					if m != "" {
+						ops := append(append(append([]GOp(nil), setup...), lists...), tail[:ti+1]...)
+						gc := gcsCase{Store: store, Ops: ops, CheckFrom: c11CheckFrom(len(setup) - 1)}
+						c.Violate(fmt.Sprintf("C11:%s:%s:relist:%s", store, cl, c11Tag(&o)), "after the listings, "+m+"\n  bucket contents: "+fmt.Sprintf("%q", names), gc, nil)
+						break
+					}
+				}
+			}
 			w.Close()
 		}
 		if skipped > 0 {
